@@ -280,6 +280,11 @@ def finish(prop, tier, seed, meta, insts, reports, t0, args):
             cc_compared += cc.get('compared', 0)
             for m in cc.get('mismatch', []):
                 cc_mismatch.append((inst.key, m))
+            nt = rep.get('native', {})
+            b_eval += nt.get('evaluations', 0)
+            b_valid += nt.get('valid', 0)
+            b_distinct += nt.get('valid', 0)
+            b_clauses += nt.get('clauses', 0)
             defs_checked += rep.get('vacuity', {}).get('defs_checked', 0)
             for d in rep.get('vacuity', {}).get('defs_bad', []):
                 defs_bad.append((inst.key, d))
@@ -306,7 +311,7 @@ def finish(prop, tier, seed, meta, insts, reports, t0, args):
     if vac_bad:
         engine_bad.append('vacuity guard: %s' % (vac_bad[:3],))
     ledger_exp = meta.get('min_obligations', 1)
-    if inst_count['proof'] and n_obl < ledger_exp and not args.only:
+    if inst_count['proof'] and n_obl < ledger_exp and not args.only and not undecided:
         engine_bad.append('only %d obligations generated (expected at least %d)' % (n_obl, ledger_exp))
     # ---- output
     printed = set()
